@@ -3,7 +3,7 @@
    Domain of every theorem: ns >= 1, 0 <= overlap < nswin, unbounded. *)
 From Coq Require Import ZArith List Bool Lia Ring.
 From IBL.lib Require Import PyInt.
-From IBL.C17 Require Import Model Proofs.
+From IBL.C17 Require Import Model Proofs Object ObjectProofs.
 Import ListNotations.
 Open Scope Z_scope.
 
@@ -87,6 +87,138 @@ Theorem C17_tscale_centre : forall w, tscale_num2 w = fst w + (snd w - 1).
 Proof. exact pub_tscale. Qed.
 Print Assumptions C17_tscale_centre.
 
+(* ---------------------------------------------------------------------- *)
+(* Round 2: the WindowGenerator OBJECT (Object.v): shared counter `iw`, several
+   generator views of one object consumed in any interleaving, tscale() calls in
+   between, amplitude buffers, and the window count on the raw arguments.      *)
+
+(* Interleaving independence.  For any set of views (firstlast, firstlast_valid,
+   firstlast_splicing, slice, slice_array) of one object and ANY schedule of
+   next() calls on them and tscale() calls, the outputs of the next() calls made on
+   view i are view_out k 0, view_out k 1, ... : a function of the view's kind and of
+   how often IT was advanced only. *)
+Theorem C17_views_interleaving_independent :
+  forall ns nswin ov kinds evs st' outs, 1 <= ns -> 0 <= ov < nswin ->
+  run_schedule ns nswin ov kinds evs = (st', outs) ->
+  forall i k, nth_error kinds i = Some k ->
+    outs_of i evs outs =
+    map (fun j => view_out ns nswin ov k (Z.of_nat j)) (seq 0 (count_next i evs)).
+Proof. intros ns nswin ov kinds evs st' outs Hns Hov. exact (views_independent ns nswin ov Hns Hov kinds evs st' outs). Qed.
+Print Assumptions C17_views_interleaving_independent.
+
+(* ... and view_out is the list of the standalone generator of Model.v followed by
+   StopIteration (odd overlap, firstlast_valid: AssertionError then StopIteration);
+   the emitted valid / splicing tuples are exactly firstlast_valid / splicing. *)
+Theorem C17_view_alone_is_generator_list :
+  forall ns nswin ov l, 1 <= ns -> 0 <= ov < nswin -> firstlast ns nswin ov = Some l ->
+  (forall k (j : nat), asserts ov k = false ->
+     view_out ns nswin ov k (Z.of_nat j) = nth j (map (emit ns ov k) l) OStop) /\
+  (forall k j, asserts ov k = true ->
+     view_out ns nswin ov k j = if j =? 0 then OAssert else OStop) /\
+  (forall lv, firstlast_valid ns nswin ov = Some lv -> map (emit ns ov KValid) l = map ovalid lv) /\
+  (forall ls, splicing ns nswin ov = Some ls -> map (emit ns ov KSplicing) l = map osplice ls).
+Proof.
+  intros ns nswin ov l Hns Hov Hl. split; [|split; [|split]].
+  - intros k j Ha. exact (view_alone_nth ns nswin ov Hns Hov k l j Hl Ha).
+  - intros k j Ha. exact (view_asserting ns nswin ov Hns Hov k j Ha).
+  - intros lv. exact (emit_valid_list ns nswin ov l lv Hl).
+  - intros ls. exact (emit_splicing_list ns nswin ov l ls Hl).
+Qed.
+Print Assumptions C17_view_alone_is_generator_list.
+
+(* Joint form: a view that was advanced at least nwin times -- in whatever company --
+   has produced exactly the standalone list (to which C17_windows_structure,
+   C17_windows_cover, C17_valid_partition, C17_splicing_sums_to_one apply), then
+   nothing but StopIteration. *)
+Theorem C17_exhausted_view_yields_generator_list :
+  forall ns nswin ov kinds evs st' outs l i k, 1 <= ns -> 0 <= ov < nswin ->
+  run_schedule ns nswin ov kinds evs = (st', outs) ->
+  firstlast ns nswin ov = Some l ->
+  nth_error kinds i = Some k -> asserts ov k = false ->
+  (length l <= count_next i evs)%nat ->
+  firstn (length l) (outs_of i evs outs) = map (emit ns ov k) l /\
+  forall x, In x (skipn (length l) (outs_of i evs outs)) -> x = OStop.
+Proof. intros ns nswin ov kinds evs st' outs l i k Hns Hov. exact (exhausted_view ns nswin ov kinds evs st' outs l i k Hns Hov). Qed.
+Print Assumptions C17_exhausted_view_yields_generator_list.
+
+(* What DOES depend on the interleaving is the shared counter wg.iw (read by
+   NP2Converter._ind2save and by the unit tests).  (1) A view consumed with nothing
+   else in between -- whatever was done with the object before its first next() --
+   leaves iw = index of the window it is at (n-th next(): min(n, nwin) - 1). *)
+Theorem C17_iw_tracks_lone_view :
+  forall ns nswin ov kinds evs0 i k (n : nat) st' outs, 1 <= ns -> 0 <= ov < nswin ->
+  nth_error kinds i = Some k -> asserts ov k = false ->
+  count_next i evs0 = O -> (1 <= n)%nat ->
+  run_schedule ns nswin ov kinds (evs0 ++ repeat (ENext i) n) = (st', outs) ->
+  o_iw (fst st') = Some (Z.min (Z.of_nat n) (nwin ns nswin ov) - 1).
+Proof. intros ns nswin ov kinds evs0 i k n st' outs Hns Hov. exact (iw_lone ns nswin ov Hns Hov kinds evs0 i k n st' outs). Qed.
+Print Assumptions C17_iw_tracks_lone_view.
+
+(* (2) tscale() returns the centres (twice: first + last - 1) of the standalone list and
+   leaves iw = nwin - 1, whatever happened before. *)
+Theorem C17_iw_after_tscale :
+  forall ns nswin ov kinds evs0 st' outs, 1 <= ns -> 0 <= ov < nswin ->
+  run_schedule ns nswin ov kinds (evs0 ++ [ETscale]) = (st', outs) ->
+  o_iw (fst st') = Some (nwin ns nswin ov - 1) /\
+  exists l, firstlast ns nswin ov = Some l /\
+            fst (last outs (OBad, obj0)) = OTscale (map tscale_num2 l).
+Proof. intros ns nswin ov kinds evs0 st' outs Hns Hov. exact (iw_tscale ns nswin ov Hns Hov kinds evs0 st' outs). Qed.
+Print Assumptions C17_iw_after_tscale.
+
+(* (3) With two views consumed side by side the counter runs ahead of both readers and
+   past nwin - 1: zip(wg.firstlast_valid, wg.slice) on (30, 10, 2).  (A statement about
+   the current code, confirmed on it by the harness; a reader of wg.iw inside such a loop
+   is wrong, the generators' own outputs are not.) *)
+Theorem C17_iw_depends_on_interleaving :
+  exists ns nswin ov kinds evs, 1 <= ns /\ 0 <= ov < nswin /\
+  map (fun p => o_iw (snd p)) (snd (run_schedule ns nswin ov kinds evs))
+    = [Some 0; Some 0; Some 1; Some 2; Some 3; Some 4] /\
+  count_next 0 evs = 3%nat /\ nwin ns nswin ov = 4.
+Proof.
+  exists 30, 10, 2, [KValid; KSlice], [ENext 0; ENext 1; ENext 0; ENext 1; ENext 0; ENext 1]%nat.
+  destruct iw_interleaving_witness as [H1 H2]. repeat split; try lia; assumption.
+Qed.
+Print Assumptions C17_iw_depends_on_interleaving.
+
+(* Every yielded amplitude vector is a newly allocated buffer: along any trace the
+   allocation counter recorded after event n = number of splicing tuples yielded so far
+   (no condition on the triple). *)
+Theorem C17_splicing_buffers_fresh :
+  forall ns nswin ov kinds evs st' outs,
+  run_schedule ns nswin ov kinds evs = (st', outs) ->
+  forall n, (n < length outs)%nat ->
+    o_nalloc (snd (nth n outs (OBad, obj0))) =
+    Z.of_nat (length (filter (fun p => is_splice (fst p)) (firstn (S n) outs))).
+Proof.
+  intros ns nswin ov kinds evs st' outs Hr n Hn.
+  exact (run_nalloc_trace ns nswin ov kinds evs _ st' outs Hr n Hn).
+Qed.
+Print Assumptions C17_splicing_buffers_fresh.
+
+(* Window count as __init__ evaluates it, on the raw arguments: equal to nwin (hence to the
+   number produced, C17_nwin_correct) for exact representations (Python int, signed NumPy
+   integers, floats: ubits = 0) and for unsigned ones of any width when nswin <= ns. *)
+Theorem C17_nwin_raw_correct_when_no_wrap :
+  forall ubits ns nswin ov,
+  (ubits = 0 \/ (0 < ubits /\ 0 <= nswin <= ns /\ ns < 2 ^ ubits)) ->
+  nwin_raw ubits ns nswin ov = nwin ns nswin ov.
+Proof.
+  intros ubits ns nswin ov [->|[Hu [Hw Hn]]].
+  - exact (nwin_raw_exact ns nswin ov).
+  - exact (nwin_raw_no_wrap ubits ns nswin ov Hu Hw Hn).
+Qed.
+Print Assumptions C17_nwin_raw_correct_when_no_wrap.
+
+(* FINDING F-C17-d (current code): with an unsigned argument and ns < nswin the difference
+   ns - nswin wraps: one window is produced and nwin announces at least two -- for EVERY such
+   triple; e.g. WindowGenerator(np.uint16(5), 20, 15).nwin = 13106. *)
+Theorem C17_nwin_unsigned_short_refuted :
+  (forall ubits ns nswin ov, 0 < ubits -> 1 <= ns < nswin -> nswin < 2 ^ ubits -> 0 <= ov < nswin ->
+     nwin ns nswin ov = 1 /\ 2 <= nwin_raw ubits ns nswin ov) /\
+  (nwin_raw 16 5 20 15 = 13106 /\ firstlast 5 20 15 = Some [(0, 5)]).
+Proof. split; [exact nwin_raw_wraps | vm_compute; split; reflexivity]. Qed.
+Print Assumptions C17_nwin_unsigned_short_refuted.
+
 (* Non-vacuity: concrete triples meeting the hypotheses, with the model's values. *)
 Example C17_example_short_last :
   firstlast 13 10 4 = Some [(0, 10); (6, 13)] /\ nwin 13 10 4 = 2 /\
@@ -98,3 +230,14 @@ Proof. vm_compute. repeat split. Qed.
 Example C17_example_shorter_than_overlap :
   firstlast 5 20 15 = Some [(0, 5)] /\ nwin 5 20 15 = 1.
 Proof. vm_compute. split; reflexivity. Qed.
+
+(* two views of one object side by side, tscale() in the middle: outputs and (iw, nalloc) *)
+Example C17_example_interleaved :
+  snd (run_schedule 13 10 4 [KValid; KSplicing] [ENext 0; ENext 1; ETscale; ENext 0; ENext 1; ENext 0]%nat)
+  = [(OValid 0 10 0 8, mkobj (Some 0) 0);
+     (OSplice 0 10 [-1;-1;-1;-1;-1;-1;3;2;1;0], mkobj (Some 0) 1);
+     (OTscale [9; 18], mkobj (Some 1) 1);
+     (OValid 6 13 8 13, mkobj (Some 2) 1);
+     (OSplice 6 13 [0;1;2;3;-1;-1;-1], mkobj (Some 3) 2);
+     (OStop, mkobj (Some 3) 2)].
+Proof. vm_compute. reflexivity. Qed.
